@@ -69,6 +69,7 @@ Proof.
   - intros s c s' H. unfold drain. destruct (d_drain OPS (s_d s)). intros [= _ <-]. exact H.
   - intros s H. exact H.
   - intros s lp ln H. exact H.
+  - intros s n H. exact H.
 Qed.
 
 (* every field of the parser table, at every depth; every production follows
@@ -172,6 +173,7 @@ Proof.
     cbn. auto with stream.
   - intros s H. cbn. auto with stream.
   - intros s lp ln H. cbn. auto with stream.
+  - intros s n H. cbn. auto with stream.
 Qed.
 
 Lemma mark_ok_init a0 d0 elems (term : sterm) : mark_ok (init_state a0 d0 elems term).
@@ -257,7 +259,7 @@ Arguments fwd {A G D E} s s'.
 Module StreamWitness.
 
 Definition tops : ops nat unit unit unit :=
-  {| d_next := fun d _ _ => d; d_goback := fun d => d; d_drain := fun d => (tt, d);
+  {| d_next := fun d _ _ _ => d; d_goback := fun d => d; d_drain := fun d => (tt, d);
      d_line_end := fun d _ g _ c => (c, g, d); c_empty := tt; a_plus2 := fun a => a + 2 |}.
 Fixpoint stream_from (n : nat) (l : list token) : list (selem nat unit) :=
   match l with [] => [] | t :: r => SE n (S n) t tt :: stream_from (S n) r end.
@@ -268,7 +270,7 @@ Definition stale : pstate nat unit unit unit :=
   {| s_cur := Some (0, id_ 65); s_rest := stream_from 1 [TOperator OBraceRight];
      s_mark := stream_from 0 [id_ 65; TOperator OSemiColon; id_ 66; TOperator OBraceRight;
                               id_ 67; id_ 68; id_ 69];
-     s_term := TEof 9 tt; s_spos := 1; s_lp := 1; s_ln := 0; s_d := tt; s_started := true |}.
+     s_term := TEof 9 tt; s_spos := 1; s_lp := 1; s_ln := 0; s_d := tt; s_started := true; s_depth := 0 |}.
 
 Example stale_mark_moves_backward :
   length (s_rest stale) = 1 /\
